@@ -227,3 +227,56 @@ def _reg_norm(fam):
 
 for _f in NORMFAM:
     _reg_norm(_f)
+
+
+# ---------------------------------------------------------------------------
+# what the optimisers see: SelectionProblem._evaluate labels the three parts of evalfn as F (objectives), G (inequality constraint
+# violations) and H (equality constraint violations) and leaves out exactly the empty ones -- whichever of them are empty
+SPF = "pybrops/breed/prot/sel/prob/SelectionProblem.py"
+
+
+@unit(P, "B[SelectionProblem._evaluate: F/G/H are the objective / inequality / equality parts of evalfn, empty parts left out, vector and matrix input]",
+      "B", bounded=True, targets=[SPF + ":SelectionProblem._evaluate"],
+      note="bounded(shape): 1-2 objectives x 0-2 inequality x 0-2 equality constraints, one vector or a matrix of 1-3 candidates; the values "
+           "evalfn returns are symbolic reals")
+def u_b_evaluate(ctx):
+    f = loopcut.Extracted(SPF + ":SelectionProblem._evaluate")
+
+    def body(e, shape, tag):
+        from pybrops.breed.prot.sel.prob.SelectionProblem import SelectionProblem as _Real
+        nobj, nineq, neq, nsoln = shape
+        ndecn = 2
+        rows = 1 if nsoln == 0 else nsoln
+        X = numpy.arange(rows * ndecn, dtype=float).reshape(rows, ndecn)
+        parts = {}
+        calls = []
+
+        def evalfn(x, *a, **kw):
+            i = len(calls)
+            calls.append(x)
+            parts[i] = (barr.fresh("f%d" % i, (nobj,), "float64"), barr.fresh("g%d" % i, (nineq,), "float64"), barr.fresh("h%d" % i, (neq,), "float64"))
+            return parts[i]
+        me = loopcut.stub_of(_Real)
+        me.evalfn = evalfn
+        out = {}
+        f(me, X[0] if nsoln == 0 else X, out)
+        e.prove(tag + ":one-evaluation-per-candidate-in-order", len(calls) == rows and all(numpy.array_equal(c, X[i]) for i, c in enumerate(calls)))
+        want = {"F": (0, nobj), "G": (1, nineq), "H": (2, neq)}
+        e.prove(tag + ":keys-are-exactly-the-non-empty-parts", set(out) == {k for k, (_, n) in want.items() if n > 0})
+        for key, (ix, n) in want.items():
+            if n == 0 or key not in out or len(calls) != rows:
+                continue
+            got = out[key]
+            exp_shape = (n,) if nsoln == 0 else (rows, n)
+            if tuple(got.shape) != exp_shape:
+                e.prove(tag + ":%s:shape" % key, False)
+                continue
+            cs = []
+            for r in range(rows):
+                for c in range(n):
+                    g = got[c] if nsoln == 0 else got[r, c]
+                    cs.append(_t(g) == _t(parts[r][ix][c]))
+            e.prove(tag + ":%s is the %s part of evalfn, row by row" % (key, ("objective", "inequality", "equality")[ix]), z3.And(*cs))
+        return "ok"
+    shapes = [(1, 0, 0, 0), (1, 0, 1, 0), (2, 1, 0, 0), (1, 2, 1, 0), (1, 0, 2, 2), (2, 1, 1, 3), (1, 0, 0, 1), (2, 2, 0, 2)]
+    modeb.run_shapes(ctx, "evaluate", shapes, body)
